@@ -19,7 +19,7 @@ Verdict(o) ==
       generated == o.ci >= 1 /\ o.ci <= Len(Cases)
       (* the harness echoes the case; it must be the case TLC generated *)
       echoOk == IF cs.kind = "raw" THEN o.ci = 0
-                ELSE generated /\ Cases[o.ci].id = o.cs.id /\ CaseId(cs) = o.cs.id /\ Cases[o.ci].text = o.cs.text
+                ELSE generated /\ Cases[o.ci].id = o.cs.id /\ CaseId(cs) = o.cs.id /\ Cases[o.ci].den.text = o.cs.text
       d == IF cs.kind = "raw" THEN Denote(cs) ELSE Cases[o.ci].den
       checks == IF ~echoOk THEN << Chk("case", "malformed") >>
                 ELSE IF o.aspect \notin AspectsOf(cs.kind) THEN << Chk("aspect", "malformed") >>
@@ -28,8 +28,8 @@ Verdict(o) ==
       first == CHOOSE i \in bad : \A j \in bad : i <= j
       good == bad = {}
   IN [id |-> o.id, ok |-> good,
-      sig |-> IF good THEN "" ELSE "ref|" \o o.aspect \o "|" \o checks[first].name \o "|" \o CaseClass(cs) \o "|" \o checks[first].problem,
-      want |-> IF cs.kind = "raw" THEN CaseClass(cs) ELSE o.cs.id]
+      sig |-> IF good THEN "" ELSE "ref|" \o o.aspect \o "|" \o checks[first].name \o "|" \o CaseClass(cs, d) \o "|" \o checks[first].problem,
+      want |-> IF cs.kind = "raw" THEN CaseClass(cs, d) ELSE o.cs.id]
 
 VARIABLE i
 Init == i \in 1..(IF N < W THEN N ELSE W) /\ PrintT(ToJson(Verdict(Obs[i])))
